@@ -10,6 +10,7 @@ package nbio
 import (
 	"encoding/binary"
 	"errors"
+	"io"
 	"net"
 	"runtime"
 	"sync"
@@ -925,6 +926,11 @@ func (c *Conn) flush() error {
 			}
 			if err != nil {
 				return err
+			}
+			if n == 0 {
+				// the file is shorter than the range that was accepted: fail the
+				// connection instead of retrying forever with the mutex held.
+				return io.ErrUnexpectedEOF
 			}
 		}
 		return nil
